@@ -1,8 +1,8 @@
 // C10 harness: the REAL solve-status classification and solution reporting code of ampl/mp,
 // driven through a scripted backend.
 //
-// C10Backend derives from solvers/visitor's VisitorBackend (i.e. from
-// FlatBackend<MIPBackend<VisitorBackend>> = the StdBackend stack under test) and only
+// C10Backend derives from the same bases as solvers/visitor's VisitorBackend
+// (FlatBackend<MIPBackend<Impl>> = the StdBackend stack under test, + VisitorCommon) and only
 // scripts what a solver would answer: the solve code, objective values, presence of a
 // primal / dual vector.  Everything else (IsProblem* predicates, ReportSolution2AMPL,
 // HandleSolution, the .sol writer, the -! table) is the unmodified library code.
@@ -13,7 +13,10 @@
 //   pred LO HI [extra...]      print `pred c solved solvedOrFeas indiff infOrUnb infeasible unbounded retrieved`
 //                              for every code LO..HI and the extra codes
 //   table                      run the driver with `-!` (prints the solve result table on stdout)
-//   report STUB [options]      read lines `code nobj primal dual` on stdin; for each, run the complete
+//   report STUB [options]      read lines `code nobj primal dual [nalt]` on stdin (nalt = intermediate/pool solutions the
+//                              scripted solver has; reported through ReportIntermediateSolution iff need_multiple_solutions(),
+//                              written to <solstub>N.sol iff option sol:stub=<solstub> is among the options; output then has
+//                              nalt=<#numbered files> altcodes=<their objno codes> hfs=<codes passed to HandleFeasibleSolution>); for each, run the complete
 //                              driver (-AMPL) on STUB.nl, re-read STUB.sol and print
 //                              `report code nobj primal dual | objShown=<0/1> objValText=<0/1: the scripted value 4242.5 is printed> code=<objno code> nx=<#primal> ny=<#dual> hs=<code passed to HandleSolution> hsobj=<nan|val> nobjpost=<#objective values after postsolve>`
 #include <cstdio>
@@ -28,7 +31,9 @@
 
 #include "mp/backend-app.h"
 #include "mp/flat/model_api_base.h"
-#include "visitorbackend.h"
+#include "mp/backend-mip.h"
+#include "mp/flat/backend_flat.h"
+#include "visitorcommon.h"
 
 namespace {
 struct Script {
@@ -42,15 +47,57 @@ struct Script {
   bool hs_x = false, hs_y = false;
   std::string hs_msg;
   long nobj_post = -1;      // sol.objvals.size() as ReportSolution2AMPL sees it (after postsolve)
+  int nalt = 0;             // number of intermediate / pool solutions the "solver" has
+  bool need_multi = false;  // need_multiple_solutions() at report time
+  std::vector<int> hfs_codes;   // codes passed to HandleFeasibleSolution
 } g;
 const double kObjVal = 4242.5;
 const char* kStatusText = "c10 scripted status";
 }
 
 namespace mp {
-class C10Backend : public VisitorBackend {
-  using Base = FlatBackend< MIPBackend<VisitorBackend> >;
+std::unique_ptr<BasicModelManager>
+CreateVisitorModelMgr(VisitorCommon&, Env&, pre::BasicValuePresolver*&);   // solvers/visitor/visitor-modelapi-connect.cc
+
+/// Same bases as solvers/visitor's VisitorBackend (FlatBackend<MIPBackend<Impl>> + VisitorCommon, the mock
+/// model API and model manager of solvers/visitor), but with the standard features MULTIOBJ and MULTISOL
+/// switched on, as in the real multi-objective / solution-pool drivers.
+class C10Backend :
+    public FlatBackend< MIPBackend<C10Backend> >,
+    public VisitorCommon
+{
+  using BaseBackend = FlatBackend< MIPBackend<C10Backend> >;
+  using Base = BaseBackend;
 public:
+  C10Backend() {
+    set_lp(Solver::CreateSolverModel());
+    pre::BasicValuePresolver* pPre;
+    auto data = CreateVisitorModelMgr(*this, *this, pPre);
+    SetMM(std::move(data));
+    SetValuePresolver(pPre);
+    copy_common_info_to_other();
+  }
+  static const char* GetAMPLSolverName() { return "c10backend"; }
+  static const char* GetAMPLSolverLongName() { return "AMPL-C10"; }
+  static const char* GetSolverName() { return "x-C10"; }
+  std::string GetSolverVersion() { return "0.0.0"; }
+  std::string set_external_libs() override { return ""; }
+  static const char* GetBackendName() { return "C10Backend"; }
+  static const char* GetBackendLongName() { return nullptr; }
+  void InitCustomOptions() override { }
+  void InitOptionParsing() override { }
+  void FinishOptionParsing() override { }
+
+  USING_STD_FEATURES;
+  ALLOW_STD_FEATURE(MULTISOL, true)
+  ALLOW_STD_FEATURE(MULTIOBJ, true)
+  void ObjPriorities(ArrayRef<int>) override { }
+
+  bool IsMIP() const override { return getIntAttr(Solver::NVARS_INT) > 0; }
+  bool IsQCP() const override { return false; }
+  void SetInterrupter(mp::Interrupter*) override { }
+  void Solve() override { }
+
   // scripted solver answers
   ArrayRef<double> PrimalSolution() override {
     if (!g.primal) return std::vector<double>{};
@@ -73,6 +120,13 @@ public:
   }
   void ReportResults() override {
     SetStatus({ g.code, kStatusText });
+    // the solution pool, as real drivers do it (GurobiBackend::ReportGurobiPool, VisitorBackend::ReportVISITORPool):
+    // after the status is known, before the final report, only if the user asked for multiple solutions
+    g.need_multi = need_multiple_solutions();
+    if (g.need_multi)
+      for (int i = 0; i < g.nalt; ++i)
+        ReportIntermediateSolution({ std::vector<double>(NumVars(), 1.0), std::vector<double>(NumLinCons(), 0.5),
+                                     std::vector<double>(1, kObjVal) });
     Base::ReportResults();          // StdBackend::ReportResults: ReportSuffixes + ReportSolution
   }
   // observation point 1: what ReportSolution2AMPL passes on
@@ -81,6 +135,12 @@ public:
     g.hs_called = true; g.hs_code = status; g.hs_obj = obj; g.hs_x = x; g.hs_y = y;
     g.hs_msg = msg.c_str();
     Base::HandleSolution(status, msg, x, y, obj);   // the real writer
+  }
+  // observation point 2: what ReportIntermediateSolution passes on
+  void HandleFeasibleSolution(int status, fmt::CStringRef msg,
+                              const double* x, const double* y, double obj) override {
+    g.hfs_codes.push_back(status);
+    Base::HandleFeasibleSolution(status, msg, x, y, obj);   // model manager -> the real writer
   }
   // expose the (protected, virtual) range predicates
   void Set(int c) { SetStatus({ c, kStatusText }); }
@@ -104,6 +164,18 @@ static void PrintEnum() {
 #define X(n) std::printf("enum %s %d\n", #n, (int)sol::n);
 #include "c10_enum_list.inc"
 #undef X
+}
+
+// the .sol writer escapes an empty message line as " ": compare messages modulo trailing blanks per line / at the end
+static std::string rstrip(std::string t) {
+  std::string out, line;
+  std::istringstream is(t);
+  while (std::getline(is, line)) {
+    while (!line.empty() && line.back() == ' ') line.pop_back();
+    out += line; out += '\n';
+  }
+  while (!out.empty() && out.back() == '\n') out.pop_back();
+  return out;
 }
 
 // parse what the real writer put into STUB.sol
@@ -162,10 +234,15 @@ int main(int argc, char** argv) {
     std::string objtxt;
     { std::ostringstream o; o << "objective " << kObjVal; objtxt = o.str(); }
     while (std::getline(std::cin, line)) {
-      int code, nobj, pr, du;
-      if (std::sscanf(line.c_str(), "%d %d %d %d", &code, &nobj, &pr, &du) != 4) { std::printf("bad-input %s\n", line.c_str()); continue; }
-      g = Script(); g.code = code; g.nobj = nobj; g.primal = pr; g.dual = du;
+      int code, nobj, pr, du, nalt = 0;
+      if (std::sscanf(line.c_str(), "%d %d %d %d %d", &code, &nobj, &pr, &du, &nalt) < 4) { std::printf("bad-input %s\n", line.c_str()); continue; }
+      g = Script(); g.code = code; g.nobj = nobj; g.primal = pr; g.dual = du; g.nalt = nalt;
       std::remove((stub + ".sol").c_str());
+      std::string solstub;                       // value of option sol:stub, if given
+      for (int i = 3; i < argc; ++i)
+        if (!std::strncmp(argv[i], "sol:stub=", 9)) solstub = argv[i] + 9;
+      if (!solstub.empty())
+        for (int k = 1; k <= nalt + 3; ++k) std::remove((solstub + std::to_string(k) + ".sol").c_str());
       std::vector<std::vector<char>> store;
       auto add = [&store](const std::string& t) { store.emplace_back(t.begin(), t.end()); store.back().push_back(0); };
       add("c10backend"); add(stub); add("-AMPL");
@@ -177,7 +254,19 @@ int main(int argc, char** argv) {
       int rc = mp::RunBackendApp(av.data(), Create);
       std::fflush(stdout);
       SolInfo si = ReadSol(stub + ".sol");
-      if (!si.ok) { std::printf("\nreport %d %d %d %d | sol-unreadable %s rc=%d\n", code, nobj, pr, du, si.err.c_str(), rc); continue; }
+      if (!si.ok) { std::printf("\nreport %d %d %d %d %d | sol-unreadable %s rc=%d\n", code, nobj, pr, du, nalt, si.err.c_str(), rc); continue; }
+      // the numbered files <solstub>1.sol, <solstub>2.sol, ... written through ReportIntermediateSolution
+      std::string altcodes = "", hfs = "";
+      int nfiles = 0, altstatus = 1;
+      if (!solstub.empty())
+        for (int k = 1; k <= nalt + 3; ++k) {
+          SolInfo a = ReadSol(solstub + std::to_string(k) + ".sol");
+          if (a.err == "nofile") continue;
+          ++nfiles;
+          altcodes += (altcodes.empty() ? "" : ",") + (a.ok ? std::to_string(a.code) : std::string("unreadable"));
+          if (a.msg.find("Alternative solution") == std::string::npos) altstatus = 0;
+        }
+      for (int c : g.hfs_codes) hfs += (hfs.empty() ? "" : ",") + std::to_string(c);
       // "objective <value>" is written by ReportSolution2AMPL as "; objective {}" / "; feasrelax objective {}"
       bool shown = si.msg.find("; objective ") != std::string::npos || si.msg.find("; feasrelax objective ") != std::string::npos;
       bool shownval = si.msg.find(objtxt) != std::string::npos;
@@ -185,10 +274,11 @@ int main(int argc, char** argv) {
       bool statusShown = si.msg.find(kStatusText) != std::string::npos;
       char hsobj[64];
       if (std::isnan(g.hs_obj)) std::strcpy(hsobj, "nan"); else std::snprintf(hsobj, sizeof hsobj, "%.17g", g.hs_obj);
-      std::printf("\nreport %d %d %d %d | objShown=%d objValText=%d anyObjWord=%d status=%d code=%d objno=%d nx=%ld ny=%ld hs=%d hsobj=%s hsx=%d hsy=%d samemsg=%d nobjpost=%ld rc=%d\n",
-                  code, nobj, pr, du, (int)shown, (int)shownval, (int)anyobj, (int)statusShown, si.code, si.objno, si.nx, si.ny,
+      std::printf("\nreport %d %d %d %d %d | objShown=%d objValText=%d anyObjWord=%d status=%d code=%d objno=%d nx=%ld ny=%ld hs=%d hsobj=%s hsx=%d hsy=%d samemsg=%d nobjpost=%ld multi=%d nalt=%d altcodes=%s hfs=%s altmsg=%d rc=%d\n",
+                  code, nobj, pr, du, nalt, (int)shown, (int)shownval, (int)anyobj, (int)statusShown, si.code, si.objno, si.nx, si.ny,
                   g.hs_called ? g.hs_code : -12345, hsobj, (int)g.hs_x, (int)g.hs_y,
-                  (int)(si.msg == g.hs_msg + "\n" || si.msg == g.hs_msg), g.nobj_post, rc);
+                  (int)(rstrip(si.msg) == rstrip(g.hs_msg)), g.nobj_post, (int)g.need_multi, nfiles,
+                  altcodes.empty() ? "-" : altcodes.c_str(), hfs.empty() ? "-" : hfs.c_str(), altstatus, rc);
     }
     return 0;
   }
